@@ -45,6 +45,23 @@ namespace sim::io
    struct g_signed : pegtl::until< pegtl::eof, pegtl::sor< s_act, s_plain, s_look, pegtl::one< ' ' > > > {};
    // 5: HTTP chunked transfer coding (hand-written chunk rules carrying the chunk size as a private state)
    struct g_chunked : pegtl::seq< pegtl::http::chunked_body, pegtl::eof > {};
+   // 6: state scopes with a state type that is default constructible only (the second construction branch of
+   //    state<> / change_state / change_states), reached with actions enabled, inside at<> / not_at<>, under disable<>
+   struct dstate : sim_state
+   {
+      dstate()
+         : sim_state()
+      {}
+   };
+   struct word : pegtl::plus< pegtl::alpha > {};
+   template< int K > struct w_cs : pegtl::seq< word > {};
+   template< int K > struct w_css : pegtl::seq< word, pegtl::opt< pegtl::one< '.' > > > {};
+   struct st_on : pegtl::seq< pegtl::one< '(' >, w_cs< 0 >, pegtl::one< ')' > > {};
+   struct st_at : pegtl::seq< pegtl::one< '[' >, pegtl::at< w_cs< 1 > >, w_cs< 1 >, pegtl::one< ']' > > {};
+   struct st_off : pegtl::seq< pegtl::one< '{' >, pegtl::disable< w_css< 0 > >, pegtl::opt< w_css< 1 > >, pegtl::one< '}' > > {};
+   struct st_rule : pegtl::seq< pegtl::one< '<' >, pegtl::state< dstate, word >, pegtl::one< '>' > > {};
+   struct st_not : pegtl::seq< pegtl::one< '!' >, pegtl::not_at< w_cs< 2 >, pegtl::one< '?' > >, pegtl::opt< w_cs< 2 > > > {};
+   struct g_states : pegtl::until< pegtl::eof, pegtl::sor< st_on, st_at, st_off, st_rule, st_not, pegtl::one< ' ' > > > {};
    // clang-format on
 }  // namespace sim::io
 
@@ -52,6 +69,17 @@ namespace sim
 {
    // clang-format off
    template<> struct sim_action< io::line > : pegtl::discard_input { static constexpr int family = 1; };
+   template< int K > struct sim_action< io::w_cs< K > > : pegtl::change_state< io::dstate > { static constexpr int family = 1; };
+   template< int K > struct sim_action< io::w_css< K > > : pegtl::change_states< io::dstate >
+   {
+      static constexpr int family = 1;
+      template< typename In, typename... Outer >
+      static void success( const In& in, io::dstate& s, Outer&&... outer )
+      {
+         s.success( in, outer... );
+      }
+   };
+   template<> inline constexpr int action_kind_1< io::word > = 1;
    template<> inline constexpr int action_kind_1< io::number > = 1;
    template<> inline constexpr int action_kind_1< io::ident > = 1;
    template<> inline constexpr int action_kind_1< io::kw_let > = 3;
